@@ -28,7 +28,7 @@ def klass(decl):
     return "hs" if len(decl.variants) * SIZE_GUESS[decl.repr] <= 8 else "hl"
 
 
-def run_space(res, tier, kinds=("closure",)):
+def run_space(res, tier, kinds=("closure",), soft=False):
     """E1 enumeration for the three archetypes. Returns {class: space result}. E1 findings are
     candidates only (rule 1): they are recorded in res.unconfirmed and confirmed by the callers."""
     low, high = (2, 11) if tier == "quick" else (12, 0)
@@ -42,8 +42,12 @@ def run_space(res, tier, kinds=("closure",)):
         if sp["n_rejected"]:
             res.outcome("e1:configs-rejected", sp["n_rejected"])
         if sp["n_unparsed"]:
-            res.machinery_error("E1 item splitter could not parse %d expansions of archetype %s: %s" % (
-                sp["n_unparsed"], k, sp["unparsed"][:2]))
+            msg = "E1 item splitter could not parse %d expansions of archetype %s: %s" % (sp["n_unparsed"], k, sp["unparsed"][:2])
+            if soft:
+                # the caller does not depend on the split (it has a fallback): note it, do not fail
+                res.extra.setdefault("e1_unparsed", []).append(msg)
+            else:
+                res.machinery_error(msg)
     res.extra["e1_space"] = {k: {x: sp[x] for x in ("gapless", "total", "configs", "accepted", "n_rejected", "n_unparsed")}
                              for k, sp in spaces.items()}
     res.extra["e1_classes_per_item"] = {k: {item: {kind: len(v) for kind, v in kinds_.items()}
